@@ -67,7 +67,10 @@ def _mk(props, classes):
     c.name = "frame conditions (no hidden state) on the classes this property runs through: " + ", ".join(
         x.split(".")[-1] for x in classes)
     c.func = classes[0] + ".__init__"
-    c.static = dict(classes=classes, kinds=("frame", "identity", "kind"), accepted={}, known=dict(STALE_MEMO_SITES))
+    # identifiers are digests of the stored fields: where C08 is concerned, a field may not store a container whose
+    # ORDER comes from set iteration (the 'order' obligations of the static back end)
+    kinds = ("frame", "identity", "kind", "order") if "C08" in props else ("frame", "identity", "kind")
+    c.static = dict(classes=classes, kinds=kinds, accepted={}, known=dict(STALE_MEMO_SITES), constructors="C08" in props)
     return c
 
 
